@@ -593,6 +593,9 @@ func redactQueryValues(obj *orderedmap.OrderedMap[string, any], redactFieldNames
 						newObj.Set(redactedKey, v)
 					}
 				}
+			} else {
+				// null carries no client data; keep the key so the query shape is preserved
+				newObj.Set(redactedKey, v)
 			}
 		}
 	}
@@ -709,6 +712,9 @@ func redactScalarValue(keyPath []string, v interface{}, isSearchStage bool, isSe
 		}
 	}
 	switch v.(type) {
+	case nil:
+		// null stays null (it is not a string and carries no client data)
+		return v
 	case string:
 		str := v.(string)
 		if IsEmail(str) {
